@@ -164,7 +164,7 @@ class TopGen:
                 self.items.append(("mart", name, scope, its))
                 src.append("mart%s %s {\n  %s\n}\n" % (sc, name, " ".join(its)))
             elif x < 0.9:
-                name = self.fresh("Map"); ents = []; s = "mapscripts%s %s {\n" % (sc, name); used = set()
+                name = self.fresh("Map") + ("_MapScripts" if r.random() < 0.4 else ""); ents = []; s = "mapscripts%s %s {\n" % (sc, name); used = set()
                 for _ in range(r.randint(0, 3)):
                     typ = r.choice(["MAP_SCRIPT_ON_LOAD", "MAP_SCRIPT_ON_TRANSITION", "MAP_SCRIPT_ON_RESUME", "MAP_SCRIPT_ON_FRAME_TABLE", "MAP_SCRIPT_ON_WARP"])
                     if typ in used: continue
@@ -220,7 +220,7 @@ class TopGen:
                     steps = list(payload) if r.random() < 0.4 else ["walk_up"]
                     stmt = "movement %s {\n  %s\n}\n" % (lab, " ".join(steps))
                 src.insert(r.randrange(len(src) + 1), stmt); self.expect_clash = lab
-        if self.used_consts: src.insert(0, "const KT_VAR = VAR_T5\nconst KT_BASE = 10\n")
+        if self.used_consts: src.insert(0, "const KT_VAR = VAR_T5\nconst KT_BASE = 10\nconst Ext_shared = 7\nconst Ext_row1 = 8\n")
         self.srcs = src
         return "\n".join(src)
     def generated_labels(self):
@@ -535,7 +535,9 @@ def gen_C09(rnd, n, tier):
         origin = rnd.choice(["stmt", "inline", "pory", "pory_", "pair", "pair1", "format", "format"])
         cfg = base_cfg(switches={"V": "A"})
         # (format() normalises blanks: only texts that are already single-spaced come out unchanged)
-        if origin == "format" and (nparts != 1 or "\\" in parts[0].replace("\\0", "").replace("\\h", "") or srcparts[0] != '"%s"' % parts[0] or parts[0] != " ".join(parts[0].split())): origin = "stmt"
+        if origin == "format" and nparts > 1 and all(pt and "\\" not in pt and pt == " ".join(pt.split()) and sp == '"%s"' % pt for pt, sp in zip(parts, srcparts)):
+            value = " ".join(parts)          # format() turns the line breaks between the parts into blanks
+        elif origin == "format" and (nparts != 1 or "\\" in parts[0].replace("\\0", "").replace("\\h", "") or srcparts[0] != '"%s"' % parts[0] or parts[0] != " ".join(parts[0].split())): origin = "stmt"
         if origin == "format":
             # format() of a text that fits on one line leaves it alone; the terminator is still the type's
             cfg = base_cfg(switches={"V": "A"}, fontdefault="F1", fonts={"F1": {"maxLineLength": 100000, "numLines": 2, "cursorOverlapWidth": 0, "widths": {"default": 1}}})
@@ -725,15 +727,16 @@ def gen_C14(rnd, n, tier):
             cfg = base_cfg(switches={"V": "A"})
             out.append(Case(compile_line(cfg, s), s, cfg, {"kind": "movement", "label": label, "want": exp, "err": err}))
         else:
-            items = [rnd.choice(["ITEM_A", "ITEM_B", "ITEM_NONE", "ITEM_C", "K_ITEM", "K_END", "PS_EMPTY", "PS_TWO"]) for _ in range(rnd.randint(0, 6))]
+            items = [rnd.choice(["ITEM_A", "ITEM_B", "ITEM_NONE", "ITEM_C", "K_ITEM", "K_END", "PS_EMPTY", "PS_TWO", "K_MOD", "K_FMT", "PS_MOD"]) for _ in range(rnd.randint(0, 6))]
             srcitem = {"PS_EMPTY": "poryswitch(V) { A {} B { ITEM_X } _ { ITEM_Y ITEM_NONE } }",
-                       "PS_TWO": "poryswitch(V) { B: ITEM_X _ { ITEM_P ITEM_Q } }"}
-            s = "const K_ITEM = ITEM_K\nconst K_NONE = ITEM_NONE\nconst K_END = K_NONE\nmart M {\n  %s\n}\n" % " ".join(srcitem.get(i, i) for i in items)
+                       "PS_TWO": "poryswitch(V) { B: ITEM_X _ { ITEM_P ITEM_Q } }", "PS_MOD": "poryswitch(V) { A: K_MOD _: ITEM_Z }"}
+            s = "const K_ITEM = ITEM_K\nconst K_NONE = ITEM_NONE\nconst K_END = K_NONE\nconst K_MOD = ITEM_A + D % 5\nconst K_FMT = %d %s\nmart M {\n  " + " ".join(srcitem.get(i, i) for i in items) + "\n}\n"
             exp = []; flat = []
             for it in items:
                 if it == "PS_EMPTY": continue            # switch value A selects the empty brace case
                 if it == "PS_TWO": flat += ["ITEM_P", "ITEM_Q"]
-                else: flat.append({"K_ITEM": "ITEM_K", "K_END": "ITEM_NONE"}.get(it, it))
+                elif it == "PS_MOD": flat.append("ITEM_A + D % 5")
+                else: flat.append({"K_ITEM": "ITEM_K", "K_END": "ITEM_NONE", "K_MOD": "ITEM_A + D % 5", "K_FMT": "% d % s"}.get(it, it))
             for it in flat:
                 if it == "ITEM_NONE": break
                 exp.append(it)
@@ -960,6 +963,13 @@ def gen_C12(rnd, n, tier):
     cfg = repo_cfg(switches={"GAME": "SAPPHIRE", "LANG": "ENGLISH"}, optimize=True)
     out.append(Case(compile_line(cfg, F18_SRC), F18_SRC, cfg, {"role": "with", "sw": "SAPPHIRE", "unmatched": False}, group="F18"))
     out.append(Case(compile_line(cfg, F18_SEL), F18_SEL, cfg, {"role": "selected", "sw": "SAPPHIRE"}, group="F18"))
+    for q, cnt in enumerate([33, 40, 70]):
+        for sw in ["A", "ZZ"]:
+            w = "".join('text T%d { poryswitch(V) { A: "a%d" B { "b%d" } _: "other%d" } }\n' % (k, k, k, k) for k in range(cnt)) + "script Last { poryswitch(V) { A: a _ { c } } }\n"
+            sl = "".join('text T%d { "%s%d" }\n' % (k, "a" if sw == "A" else "other", k) for k in range(cnt)) + "script Last { %s }\n" % ("a" if sw == "A" else "c")
+            cfg = repo_cfg(switches={"V": sw}, optimize=True)
+            out.append(Case(compile_line(cfg, w), w, cfg, {"role": "with", "sw": sw, "unmatched": False}, group=("many", q, sw)))
+            out.append(Case(compile_line(cfg, sl), sl, cfg, {"role": "selected", "sw": sw}, group=("many", q, sw)))
     for i in range(n):
         p = Pory(rnd); src_w, tops_s = p.program()
         # constants named like case labels or like the switch value: they never take part in case selection
@@ -1006,6 +1016,7 @@ def gen_C13(rnd, n, tier):
     for it in range(n):
         pool = ["K%d" % i for i in range(4)]
         if it % 4 == 1: pool = ["ÉTAGE", "K1", "ñ_k", "K3"]          # names that start with a non-ASCII letter
+        if it % 4 == 2: pool = ["K_" + "A" * 29, "K_" + "B" * 30, "FLAG_HIDE_LITTLEROOT_TOWN_RIVAL_BEDROOM", "K" * 64]     # 31, 32, 39, 64 bytes
         names = pool[:rnd.randint(1, 4)]
         defs = {}; deflines = []
         for i, nme in enumerate(names):
@@ -1050,10 +1061,13 @@ def gen_C13(rnd, n, tier):
             deflines.append("const K8 = ITEM_NONE"); defs["K8"] = ["ITEM_NONE"]
             tops.append("mart M2 { ITEM_A K8 ITEM_B }")
         if rnd.random() < 0.5: tops.append("mapscripts MS { T [ %s, %s: L1  %s + 1, 2 { z } ] }" % (u(), u(), u()))
-        prog = "\n".join(deflines + tops)
+        early = []
+        if rnd.random() < 0.4:      # written BEFORE the definitions: not uses, stay as written
+            early = [rnd.choice(["mart Early { ITEM_A %s ITEM_B }" % u(), "script EarlyS { setvar(%s, 1) if (flag(%s)) { a } }" % (u(), u()), "mapscripts EarlyM { T [ %s, 1: L0 ] }" % u()])]
+        prog = "\n".join(early + deflines + tops)
         name_re = re.compile(r"(?<![\w])(%s)(?![\w])" % "|".join(re.escape(x) for x in sorted(defs, key=len, reverse=True)))
         expand = lambda s: name_re.sub(lambda m: " ".join(defs[m.group(0)]), s)
-        prog2 = "\n".join(expand(t) for t in tops)
+        prog2 = "\n".join(early + [expand(t) for t in tops])
         cfg = base_cfg()
         out.append(Case(compile_line(cfg, prog), prog, cfg, {"role": "const"}, group=it))
         out.append(Case(compile_line(cfg, prog2), prog2, cfg, {"role": "expanded"}, group=it))
